@@ -106,6 +106,26 @@ func WatchXpub(n int) (*hdkeychain.ExtendedKey, refbip32.Key, uint32) {
 // Apply executes one operation against the real manager, updating the model
 // for committed, successful operations.
 func (w *World) Apply(focus waddrmgr.KeyScope, op Op) *Result {
+	res := w.apply(focus, op)
+	// the caller keeps the handles it was given (a handle obtained while unlocked must
+	// refuse private access once the manager is locked, cached by the manager or not)
+	if res.Err == nil && !op.Rollback {
+		for _, ma := range res.Addrs {
+			if len(w.Held) < 12 {
+				w.Held = append(w.Held, HeldHandle{MA: ma, How: op.K})
+			}
+		}
+	}
+	return res
+}
+
+// HeldHandle is a managed address object an operation returned to its caller.
+type HeldHandle struct {
+	MA  waddrmgr.ManagedAddress
+	How string
+}
+
+func (w *World) apply(focus waddrmgr.KeyScope, op Op) *Result {
 	res := &Result{}
 	sm, err := w.Scoped(focus)
 	if err != nil && op.K != "new_scope" && op.K != "restart" && op.K != "lock" && op.K != "unlock" &&
